@@ -28,7 +28,7 @@ HOSTILE = [b'RESULT -1\nx', b'RESULT 99999999999999999999\n', b'READY\nREADY\n',
 def hostile_scenario(rng):
     progs = [dict(name='w0', group='g', startsecs=0, autorestart='true', capture=rng.choice([0, 10]), events=True),
              dict(name='l0', group='pool', gprio=1, startsecs=0, autorestart='true', listener=dict(events=['PROCESS_STATE', 'TICK_5'], buffer_size=2)),
-             dict(name='w1', group='g2', startsecs=1, autorestart='unexpected')]
+             dict(name='w1', group='g2', startsecs=1, autorestart='unexpected', leaves_pipes_open=True)]
     script = []
     for i in range(rng.choice([12, 25])):
         acts = []
@@ -39,6 +39,9 @@ def hostile_scenario(rng):
             acts.append(('exit', rng.choice(['w0', 'l0', 'w1']), rng.choice([0, 1, -9])))
         if rng.random() < 0.2:
             acts.append(('write', 'l0', 'stdout', rng.choice([b'READY\n', b'RESULT 2\nOK', b'RESULT 4\nFAIL', b'REA', b'DY\n'])))
+        if rng.random() < 0.15:
+            # a large write to a child that does not read its stdin: the pipe fills up
+            acts.append(('rpc', 5000 + i, 'supervisor.sendProcessStdin', ('g:w0' if rng.random() < 0.5 else 'g2:w1', 'x' * rng.choice([1000, 70000, 140000]))))
         script.append((rng.choice([512, 1024, 2048, 5 * 1024]), acts))
     return progs, script
 
